@@ -291,7 +291,9 @@ class Ctx:
             self.harness_errors.append("%s: sat but no replay available; witness=%s" % (full, json.dumps(wit)[:400]))
             return verdict, model
         try:
-            ok, detail = replay(_ModelReader(model))
+            from . import npx
+            with npx.real_code():
+                ok, detail = replay(_ModelReader(model))
         except Exception as e:
             self.harness_errors.append("%s: replay raised %s: %s" % (full, type(e).__name__, e))
             rec["replay_error"] = traceback.format_exc()[-1500:]
@@ -307,6 +309,10 @@ class Ctx:
         """translation validation of one harness/stub: symbolic result evaluated at a concrete
         assignment vs. the real function on real NumPy."""
         import numpy
+        if callable(real_val):
+            from . import npx
+            with npx.real_code():
+                real_val = real_val()
         a = numpy.asarray(sym_val, dtype=complex)
         b = numpy.asarray(real_val, dtype=complex)
         if a.shape != b.shape:
